@@ -111,6 +111,7 @@ class Gen:
         self.no_jump_cross = 0                # inside comprehension body: no break/continue/return
         self.uncertain = 0                    # inside a branch that may not run: definitions are not callable later
         self.in_comp_iter = 0                 # inside a comprehension iterable: no assignment expression (PEP 572)
+        self.anyvars = ["a0", "a1"]           # module-level variables holding an int or None
 
     def k(self):
         return next(self.ids)
@@ -315,6 +316,76 @@ class Gen:
                          + [lambda: self.int_expr(D)] * rng.randint(0, 1))
         return {"op": rng.choice(["and", "or"]), "xs": xs}, e
 
+    # -- variables a0/a1 hold an int or None: the targets of (setv aK (when ...)) and friends
+    def any_ok(self):
+        return self.in_fn == 0 and bool(self.assignable) and not self.in_comp_iter and not self.no_jump_cross
+
+    def anyvar_read(self, name=None):
+        name = name or self.rng.choice(self.anyvars)
+        sub = ({"op": "var", "n": name}, eff(r=[name]))
+        return self.logged(sub) if self.rng.random() < 0.6 else sub
+
+    def anyvar_int(self, name):
+        """(or aK lit): an int-typed read of an any-typed variable"""
+        node, e = self.anyvar_read(name)
+        return {"op": "or", "xs": [node, {"op": "lit", "v": self.rng.randint(1, 9)}]}, e
+
+    def setany(self, d):
+        """(setv aK V): V is a `when`, an `if` whose else is None or a `cond` without fallback,
+        whose taken branch compiles to statements and whose test or body may read aK itself:
+        the value must be computed from the old aK and aK is None when no branch is taken."""
+        rng = self.rng
+        name = rng.choice(self.anyvars)
+        D = d + 1
+        self.uncertain += 1
+        try:
+            r = rng.random()
+            if r < 0.45:
+                c, ec = self.anyvar_read(name)
+            elif r < 0.6:
+                a, ea = self.anyvar_int(name)
+                b, eb = self.int_expr(D)
+                c, ec = {"op": "cmp", "o": rng.choice(["<", "<=", "=", "!=", ">"]), "a": a, "b": b}, eff_join(ea, eb)
+                if par_conflict(ea, eb):
+                    c, ec = a, ea
+            else:
+                c, ec = self.any_expr(D)
+            r = rng.random()
+            if r < 0.35:
+                last = lambda: self.anyvar_int(name)
+            elif r < 0.5:
+                def last():
+                    xs, e = self.par([lambda: self.anyvar_int(name), lambda: self.int_expr(D)])
+                    return {"op": "bin", "o": rng.choice(["+", "-", "*"]), "xs": xs}, e
+            elif r < 0.6:
+                last = lambda: self.anyvar_read(name)
+            else:
+                last = lambda: self.int_expr(D)
+            pre = [lambda: self.stmt_wrap(self.int_expr(D))] if rng.random() < 0.8 else []
+            if rng.random() < 0.3:
+                pre.append(lambda: self.stmt_form(D))
+            b, eb = self.seq(pre + [last])
+            shape = rng.choice(["when", "when", "if", "if-swapped", "cond"])
+            if shape == "when":
+                v = {"op": "when", "c": c, "b": b}
+            elif shape == "if":
+                v = {"op": "if", "c": c, "a": {"op": "do", "b": b}, "b": {"op": "none"}}
+            elif shape == "if-swapped":
+                v = {"op": "if", "c": c, "a": {"op": "none"}, "b": {"op": "do", "b": b}}
+            else:
+                cl = [[c, {"op": "do", "b": b}]]
+                e2 = eff()
+                if rng.random() < 0.5:
+                    c2, ec2 = self.any_expr(D)
+                    r2, er2 = self.stmt_wrap(self.int_expr(D))
+                    cl.append([c2, r2])
+                    e2 = eff_join(ec2, er2)
+                v = {"op": "cond", "cl": cl}
+                eb = eff_join(eb, e2)
+        finally:
+            self.uncertain -= 1
+        return {"op": "setv", "ps": [[name, v]]}, eff_join(ec, eb, eff(w=[name]))
+
     def index_expr(self, n):
         i = self.rng.randrange(n)
         node = {"op": "lit", "v": i if self.rng.random() < 0.7 else i - n}
@@ -329,7 +400,9 @@ class Gen:
             return self.int_expr(d)
         self.budget -= 1
         D = d + 1
-        kind = rng.choice(["when", "stmt", "andor0", "coll", "lit", "withany"])
+        kind = rng.choice(["when", "stmt", "andor0", "coll", "lit", "withany", "anyvar"])
+        if kind == "anyvar":
+            return self.anyvar_read()
         if kind == "withany":
             return self.with_form(D, "any")
         if kind == "when":
@@ -445,8 +518,11 @@ class Gen:
         opts = [("setv", 4 if self.assignable else 0), ("while", 2), ("for", 2), ("defn", 1),
                 ("break", 2 if self.in_loop and not self.no_jump_cross else 0),
                 ("continue", 1 if self.in_loop and not self.no_jump_cross else 0),
-                ("expr", 2), ("setfn", 1 if self.assignable else 0)]
+                ("expr", 2), ("setfn", 1 if self.assignable else 0),
+                ("setany", 1 if self.any_ok() else 0)]
         kind = rng.choices([c for c, _ in opts], [w for _, w in opts])[0]
+        if kind == "setany":
+            return self.setany(D)
         if kind == "setv":
             n = rng.randint(1, 2)
             ps, es = [], []
@@ -673,8 +749,11 @@ def gen_program(rng, max_depth=5, max_nodes=60):
     g = Gen(rng, max_depth=max_depth, max_nodes=max_nodes)
     n = rng.randint(0, 3)
     forms = []
-    for _ in range(n):
-        forms.append(g.stmt_form(1)[0])
+    nany = rng.choice([0, 0, 0, 0, 0, 1, 2])
+    kinds = ["stmt"] * n + ["any"] * nany
+    rng.shuffle(kinds)
+    for kd in kinds:           # generated in program order: a form may call the functions defined before it
+        forms.append(g.stmt_form(1)[0] if kd == "stmt" else g.setany(1)[0])
     r = rng.random()
     if r < 0.75:
         last = g.int_expr(1)[0]
@@ -682,7 +761,7 @@ def gen_program(rng, max_depth=5, max_nodes=60):
         last = g.any_expr(1)[0]
     else:
         last = g.coll_expr(1)[0]
-    init = [[v, rng.randint(0, 5)] for v in g.vars]
+    init = [[v, rng.randint(0, 5)] for v in g.vars] + [[v, rng.randint(0, 3)] for v in g.anyvars]
     return {"init": init, "forms": forms, "last": last}
 
 
